@@ -289,7 +289,7 @@ fn text_damage(r: &mut Rng, bytes: &[u8]) -> Damage {
     let len = bytes.len().max(1);
     match r.below(6) {
         0 => Damage::SetByte { off: r.usize_below(len), value: *r.pick(&[b'<', b'>', b'\t', b'\r', b'\n', 0, 0xFF, 0xC3, b',', b'-']) },
-        1 => Damage::Insert { off: r.usize_below(len), hex: hex(*r.pick(&[&b"<"[..], b">", b"<>", b"\r\n", b"\t", b"\r\n\r\n", b"\xff\xfe", b"X-Patch-Length: ", b"\t\t\t", b"99999999999999999999"])) },
+        1 => Damage::Insert { off: r.usize_below(len), hex: hex(*r.pick(&[&b"<"[..], b">", b"<>", b"\r\n", b"\t", b"\r\n\r\n", b"\xff\xfe", b"X-Patch-Length: ", b"\t\t\t", b"99999999999999999999", "\u{e9}".as_bytes(), "\u{6f22}".as_bytes(), "\u{1f600}".as_bytes(), "\u{e9}\u{6f22}".as_bytes()])) },
         2 => {
             // delete a span: modelled as truncate + append of the tail is not expressible; drop a line end instead
             let nl: Vec<usize> = bytes.iter().enumerate().filter(|(_, b)| **b == b'\n' || **b == b'\t').map(|(i, _)| i).collect();
@@ -402,43 +402,8 @@ pub fn generate(seed: u64, tier: Tier) -> Doc {
                     // a full disk made of patch content: one command addresses a position
                     // beyond the largest file the simulated disk holds (96 MiB), as a 32-bit
                     // block offset (x 128: up to 512 GiB) or a 64-bit file offset may
-                    let limit_blocks = (crate::simfs::MAX_FILE >> 7) as u32;
                     let pi = r.usize_below(np);
-                    let cands: Vec<usize> = base.patches[pi]
-                        .iter()
-                        .enumerate()
-                        .filter(|(_, c)| matches!(c, Chunk::AddData { .. } | Chunk::DeleteData { .. } | Chunk::ExpandData { .. } | Chunk::AddFile { .. }))
-                        .map(|(i, _)| i)
-                        .collect();
-                    if !cands.is_empty() {
-                        let ci = *r.pick(&cands);
-                        let far = |r: &mut Rng, old: u32| -> u32 {
-                            match r.below(8) {
-                                0 => 1 << 25,
-                                1 => (1 << 25) + 1,
-                                2 => (1u32 << 25).wrapping_add(old),
-                                3 => 1 << 26,
-                                4 => 0x7FFF_FFFF,
-                                5 => 0xFFFF_FFFF,
-                                6 => limit_blocks,
-                                _ => limit_blocks + r.below(1 << 20) as u32,
-                            }
-                        };
-                        match &mut base.patches[pi][ci] {
-                            Chunk::AddData { block_offset, .. } | Chunk::DeleteData { block_offset, .. } | Chunk::ExpandData { block_offset, .. } => {
-                                *block_offset = far(&mut r, *block_offset);
-                            }
-                            Chunk::AddFile { offset, .. } => {
-                                *offset = match r.below(4) {
-                                    0 => 1 << 32,
-                                    1 => (1u64 << 32) + *offset,
-                                    2 => 1 << 40,
-                                    _ => crate::simfs::MAX_FILE + r.below(1 << 20),
-                                };
-                            }
-                            _ => {}
-                        }
-                    }
+                    c03::address_beyond_disk(&mut r, &mut base.patches[pi]);
                 }
                 10 => {
                     // an unwritable target made of tree state: a file sits where a directory
@@ -522,9 +487,17 @@ pub fn generate(seed: u64, tier: Tier) -> Doc {
             };
             C17Doc::Boot {
                 dir_exists: r.chance(4, 5),
-                ver: match r.below(4) {
+                ver: match r.below(6) {
                     0 => None,
                     1 => Some(Bytes::Hex(hex(&fill_bytes(r.range(0, 40) as usize, r.next_u64() & !3)))),
+                    2 | 3 => {
+                        // valid UTF-8 of any length with multi-byte characters anywhere
+                        let mut t = String::new();
+                        for _ in 0..r.below(48) {
+                            t.push(*r.pick(&['2', '0', '.', '1', 'a', ' ', '\n', '\r', '\u{e9}', '\u{6f22}', '\u{1f600}']));
+                        }
+                        Some(Bytes::Hex(hex(t.as_bytes())))
+                    }
                     _ => Some(Bytes::Hex(hex(b"2012.01.01.0000.0000"))),
                 },
             }
@@ -637,6 +610,15 @@ pub fn directed() -> Vec<Doc> {
     push(C17Doc::Launcher { prefix: 0, url_kind: 1, url: "/old".into(), terminated: true, suffix: 0, missing: false, damage: vec![] }, &mut out);
     push(C17Doc::Boot { dir_exists: true, ver: Some(Bytes::Hex(hex(b"2012.01.01.0000.0000"))) }, &mut out);
     push(C17Doc::Boot { dir_exists: false, ver: None }, &mut out);
+    // a version file that is valid UTF-8 with one multi-byte character starting at every byte
+    // position (cutting or slicing a string by a byte count is only safe on character boundaries)
+    for ch in ["\u{e9}", "\u{6f22}", "\u{1f600}"] {
+        for k in 0..44usize {
+            let t = format!("{}{}{}", "2012.01.01.0000.0000.2012.01.01.0000.0000.20".get(..k).unwrap_or(""), ch, "12.01");
+            push(C17Doc::Boot { dir_exists: true, ver: Some(Bytes::Hex(hex(t.as_bytes()))) }, &mut out);
+            push(C17Doc::Boot { dir_exists: true, ver: Some(Bytes::Hex(hex(t[..k + ch.len()].as_bytes()))) }, &mut out);
+        }
+    }
     // patches: every truncation point of one small patch, every field value of its field map
     let small = C03Doc {
         via: Via::Direct,
